@@ -453,7 +453,12 @@ pub fn parse_choice_text(input: &str) -> Result<ParsedChoiceText, CompilerError>
     {
         let close = open + 1 + close_rel;
         let start = &trimmed[..open];
-        let choice_only = trimmed[open + 1..close].trim();
+        // a blank at the start of the bracket separates it from the text in front of it
+        let choice_only = if start.trim().is_empty() {
+            trimmed[open + 1..close].trim()
+        } else {
+            trimmed[open + 1..close].trim_end()
+        };
         let end = trimmed[close + 1..].trim_start();
         let had_space_before_inline_divert = split_inline_divert(&trimmed[close + 1..])
             .and_then(|(text, _)| text.chars().last())
